@@ -536,6 +536,14 @@ func (group *Group) feedTsPackets(tsPackets []byte, frame *mpegts.Frame, boundar
 		group.hlsMuxer.FeedMpegts(tsPackets, frame, boundary)
 	}
 
+	// `boundary` tells hls where a fragment may be cut; for a stream with aac audio that excludes key frames which arrive
+	// while no audio is pending. A http-ts consumer can start at every video key frame (its packets carry the parameter
+	// sets), and the http-ts gop cache has to start a new gop at every key frame: otherwise a consumer that waits may
+	// never be released, and one cached "gop" keeps growing over many gops of the stream
+	if frame.Sid == mpegts.StreamIdVideo && frame.Key {
+		boundary = true
+	}
+
 	// # 遍历 httpts sub session
 	for session := range group.httptsSubSessionSet {
 		if session.IsFresh {
